@@ -8,7 +8,8 @@
   * `…_order_independent`  — ∀ maps of any size, ∀ two iteration orders: same result.
        For the sites the pinned tree already gets right (sorted paths, count merges, declared
        sets, template merge by FileOrder, …) and, in full, for the REPAIRED code of every site
-       that was order-dependent (repo_patches/fix-determinism-*.diff).
+       that was order-dependent (repo_patches/fix-determinism-*.diff; for the index's payee
+       templates the later upstream rule `restorePayeeTemplate` = smallest path that has one).
   * `…_counterexample`     — the pinned code (`…In`): two orders of one map, two different results.
   * `…_partial`            — the pinned code is order-independent under an explicit guard.
   * `C15_deterministic`         — all modelled responses of the repaired server, jointly.
@@ -118,11 +119,16 @@ theorem collectFromResolved_order_independent {σ σ' : Entries String (List Str
     collectFromResolved primary σ = collectFromResolved primary σ' := by
   unfold collectFromResolved; rw [sortedEntries_perm h nd]
 
-/-- fix-determinism-workspace-index: payee templates of the workspace index … -/
+/-- Payee templates of the workspace index (upstream `restorePayeeTemplate`, which superseded
+    fix-determinism-workspace-index for this map): the smallest-path choice is the same for every
+    order in which `idx.fileIndexes` — root file included — is ranged over.  Paths are non-empty
+    (`SetFileIndex` refuses ""). -/
 theorem indexTemplates_order_independent {τ : Type} {σ σ' : Entries String (Entries String τ)}
-    (h : σ.Perm σ') (nd : (keys σ).Nodup) (root : Entries String τ) :
-    indexTemplates root σ = indexTemplates root σ' := by
-  unfold indexTemplates; rw [sortedEntries_perm h nd]
+    (h : σ.Perm σ') (nd : (keys σ).Nodup) (ne : ∀ f ∈ σ, f.1 ≠ "") :
+    indexTemplates σ = indexTemplates σ' := by
+  funext payee
+  unfold indexTemplates
+  simp only [bestPath_perm h ne payee, lookup_perm h nd]
 
 /-- … and the per-key transaction lists of the index. -/
 theorem indexTxFiles_order_independent {σ σ' : Entries String (List String)} (h : σ.Perm σ')
@@ -350,12 +356,16 @@ structure World (τ ς : Type) where
   /-- `FileOrder` before files are added, the files to add with their template maps -/
   keptFiles : Entries String (Entries String τ)
   missingFiles : Entries String (Entries String τ)
+  /-- the path of the root journal (its key in the workspace index) -/
+  rootName : String
 
 /-- every map has distinct keys -/
 structure World.WF {τ ς : Type} (w : World τ ς) : Prop where
   residuals : ∀ r ∈ w.residuals, (keys r).Nodup
   fileNames : (keys w.fileNames).Nodup
   fileTemplates : (keys w.fileTemplates).Nodup
+  /-- the workspace index is a map keyed by non-empty paths, the root's among them -/
+  rootName : w.rootName ∉ keys w.fileTemplates ∧ w.rootName ≠ "" ∧ ∀ f ∈ w.fileTemplates, f.1 ≠ ""
   docs : (keys w.docs).Nodup
   missingFiles : (keys w.missingFiles).Nodup
 
@@ -373,6 +383,7 @@ structure World.Reordered {τ ς : Type} (w w' : World τ ς) : Prop where
   docPaths : w.docPaths.Perm w'.docPaths
   keptFiles : w.keptFiles = w'.keptFiles
   missingFiles : w.missingFiles.Perm w'.missingFiles
+  rootName : w.rootName = w'.rootName
 
 /-- The modelled responses: unbalanced-transaction messages, collector lists, completion labels
     (for given scores and `MaxResults`), counts, workspace symbols, index templates, `FileOrder`
@@ -396,7 +407,7 @@ def respond {τ ς : Type} (w : World τ ς) (score : String → Nat) (max : Nat
     (mergeCounts w.primaryCounts w.fileCounts) max
   counts := mergeCounts w.primaryCounts w.fileCounts
   symbols := wsSymbols w.docs
-  indexTemplates := HL.MapOrder.indexTemplates w.rootTemplates w.fileTemplates
+  indexTemplates := HL.MapOrder.indexTemplates ((w.rootName, w.rootTemplates) :: w.fileTemplates)
   fileOrder := addMissing (keys w.keptFiles) (keys w.missingFiles)
   templates := templatesAfterAdd w.keptFiles w.missingFiles w.rootTemplates
   runDocument := minPath w.docPaths
@@ -434,7 +445,13 @@ theorem C15_deterministic {τ ς : Type} {w w' : World τ ς} (wf : w.WF) (r : w
   · rw [hnames, r.primaryNames]
   · rw [hnames, r.primaryNames, hcounts]
   · exact wsSymbols_order_independent r.docs wf.docs
-  · rw [indexTemplates_order_independent r.fileTemplates wf.fileTemplates, r.rootTemplates]
+  · rw [← r.rootName, ← r.rootTemplates]
+    refine indexTemplates_order_independent (r.fileTemplates.cons _) ?_ ?_
+    · simp only [keys, map_cons, nodup_cons]; exact ⟨wf.rootName.1, wf.fileTemplates⟩
+    · intro f hf
+      rcases mem_cons.mp hf with rfl | hf
+      · exact wf.rootName.2.1
+      · exact wf.rootName.2.2 f hf
   · rw [r.keptFiles]; exact addMissing_order_independent (keys_perm r.missingFiles) _
   · rw [templatesAfterAdd_order_independent r.missingFiles wf.missingFiles, r.keptFiles, r.rootTemplates]
   · exact minPath_order_independent r.docPaths
@@ -484,7 +501,7 @@ theorem C15_completion_partial {σ σ' : Entries String (List String)} (primary 
     included template maps without a common payee, one open document -/
 example : (⟨[[("USD", "10")]], ["Rent"], [("a.journal", ["Cafe"])], [("Rent", 1)], [("a.journal", [("Cafe", 2)])],
     [("Rent", 0)], [("a.journal", [("Cafe", 1)]), ("b.journal", [("Grocer", 2)])],
-    [("file:///w/main.journal", [7])], ["/w/main.journal"], [], [("a.journal", [("Cafe", 1)])]⟩ : World Nat Nat).Guard where
+    [("file:///w/main.journal", [7])], ["/w/main.journal"], [], [("a.journal", [("Cafe", 1)])], "main.journal"⟩ : World Nat Nat).Guard where
   residuals := by decide
   fileNames := by decide
   fileTemplates := by
